@@ -31,6 +31,9 @@ type SyncCase struct {
 	// MemResize: in-memory source whose files changed size between listing and reading: readers deliver
 	// len+MemResize bytes (negative: the tail is missing; -1<<30: nothing at all)
 	MemResize int `json:"memresize,omitempty"`
+	// AbortFirst: before the judged transfer, the same transfer is run once with this stream failure injected; the
+	// judged transfer then meets whatever the aborted run left behind
+	AbortFirst *xfer.Fault `json:"abortfirst,omitempty"`
 	// MetaOn: metadata-only receive selecting exactly the paths in MetaSel
 	MetaOn  bool     `json:"metaon,omitempty"`
 	MetaSel []string `json:"metasel,omitempty"`
@@ -43,6 +46,9 @@ func (c SyncCase) String() string {
 	}
 	if c.MetaOn {
 		s += fmt.Sprintf(" metadata-only select=%q", c.MetaSel)
+	}
+	if c.AbortFirst != nil {
+		s += fmt.Sprintf(" after-a-run-aborted-by(%s@%d)", c.AbortFirst.End, c.AbortFirst.K)
 	}
 	if c.Notify || c.FilterShift || c.FilterUID {
 		s += fmt.Sprintf(" notify=%v filter-shift=%v filter-uid=%v", c.Notify, c.FilterShift, c.FilterUID)
